@@ -1384,9 +1384,10 @@ def check_reuse(cfg, tier="quick"):
             r1 = vjp(g1)
             r1_ids = _ids(r1)
             r1_terms = coeffs(r1)
+            r1b = vjp(g1)  # the very next call (state that flips on every call shows on even-numbered calls)
             r2 = vjp(g2)
             r3 = vjp(g1)
-            res.update(r1=r1, r2=r2, r3=r3, r1_terms=r1_terms, r1_same=(_ids(r1) == r1_ids), g_same=((_ids(g1), _ids(g2)) == gi))
+            res.update(r1=r1, r1b=r1b, r2=r2, r3=r3, r1_terms=r1_terms, r1_same=(_ids(r1) == r1_ids), g_same=((_ids(g1), _ids(g2)) == gi))
             res["r1_after"] = coeffs(r1)
         except (Unsupported, Infeasible, PathLimit):
             raise
@@ -1403,9 +1404,10 @@ def check_reuse(cfg, tier="quick"):
             _freeze(v2)
             t1 = jv(v1)[1]
             t1_terms = coeffs(t1)
+            t1b = jv(v1)[1]
             t2 = jv(v2)[1]
             t3 = jv(v1)[1]
-            res.update(t1_terms=t1_terms, t1_after=coeffs(t1), t3=t3)
+            res.update(t1_terms=t1_terms, t1_after=coeffs(t1), t3=t3, t1b=t1b)
             # re-entrancy: the SAME JVP function is called again (other tangent) while a call of it is still tracing,
             # between two uses of the input; the outer call must still return its own answer: f_re = f + 2 f = 3 f
             st = {"jv": None, "busy": False}
@@ -1460,9 +1462,9 @@ def check_reuse(cfg, tier="quick"):
             out.status, out.detail = "violation", "an input / cotangent / earlier result array had entries replaced (inputs %s, cotangents %s, earlier result %s)" % (res["in_same"], res["g_same"], res["r1_same"])
             out.cex = {"env": {}, "mode": "reuse"}
             break
-        eqs = list(zip(coeffs(res["r3"]), res["r1_terms"])) + list(zip(res["r1_after"], res["r1_terms"]))
+        eqs = list(zip(coeffs(res["r3"]), res["r1_terms"])) + list(zip(res["r1_after"], res["r1_terms"])) + list(zip(coeffs(res["r1b"]), res["r1_terms"]))
         if "t3" in res:
-            eqs += list(zip(coeffs(res["t3"]), res["t1_terms"])) + list(zip(res["t1_after"], res["t1_terms"]))
+            eqs += list(zip(coeffs(res["t3"]), res["t1_terms"])) + list(zip(res["t1_after"], res["t1_terms"])) + list(zip(coeffs(res["t1b"]), res["t1_terms"]))
         if "t_re" in res and len(coeffs(res["t_re"])) == len(res["t1_terms"]):
             from .sym import t_mul as _tm
 
@@ -1504,9 +1506,10 @@ def _float_reuse_ok(cfg):
             g1c = onp.array(flat_float(g1))
             r1 = vjp(g1)
             r1c = onp.array(flat_float(r1))
+            r1b = vjp(g1)
             vjp(g2)
             r3 = vjp(g1)
-        ok = onp.array_equal(onp.array(flat_float(r3)), r1c) and onp.array_equal(onp.array(flat_float(r1)), r1c) and onp.array_equal(onp.array(flat_float(g1)), g1c)
+        ok = onp.array_equal(onp.array(flat_float(r3)), r1c) and onp.array_equal(onp.array(flat_float(r1b)), r1c) and onp.array_equal(onp.array(flat_float(r1)), r1c) and onp.array_equal(onp.array(flat_float(g1)), g1c)
         for a, c in zip(fa, copies):
             if isinstance(a, onp.ndarray):
                 ok = ok and onp.array_equal(a, c)
@@ -1917,6 +1920,10 @@ def check_operators(case, tier="quick"):
         if scalar_in or ish == ():
             attempt("argnum=1: deriv", lambda: autograd.deriv(F2b, 1)(a0, x), m * J)
         attempt("argnum=1: forward-over-reverse", lambda: autograd.make_jvp(autograd.grad(sc2, 1), 1)(a0, x)(v)[1], m * T(Hs, v, nin))
+        # outputs that are size-1 ARRAYS, not shape-() scalars: the operators keep the output axes
+        attempt("hessian of a (1,)-shaped output keeps the output axis", lambda: autograd.hessian(lambda x_: anp.reshape(sc(x_), (1,)))(x), onp.reshape(onp.asarray(Hs, dtype=object), (1,) + onp.shape(Hs)))
+        attempt("hessian of a (1,1)-shaped output keeps both output axes", lambda: autograd.hessian(lambda x_: anp.reshape(sc(x_), (1, 1)))(x), onp.reshape(onp.asarray(Hs, dtype=object), (1, 1) + onp.shape(Hs)))
+        attempt("jacobian of a (1,)-shaped output", lambda: autograd.jacobian(lambda x_: anp.reshape(sc(x_), (1,)))(x), onp.reshape(onp.asarray(gJ, dtype=object), (1,) + onp.shape(gJ)))
         # one primitive call with THREE traced arguments (the general dispatch branch of defvjp): every operator still
         # pairs each argument with its own rule
         @primitive
